@@ -655,7 +655,14 @@ func (s *scenario) opLookup(a *action) {
 
 func (s *scenario) opList(a *action) {
 	dir := s.pickDir(a)
-	switch s.r.Intn(4) {
+	s.listAt(a, dir, s.r.Intn(4))
+}
+
+// listAt lists directory dir through one of the listing APIs (which: 0 =
+// worker-facing ReadDir, 1 = worker-facing LookupAllChildren, else the
+// kernel-facing VirtualReadDir with small pages).
+func (s *scenario) listAt(a *action, dir []string, which int) {
+	switch which {
 	case 0: // worker-facing ReadDir
 		pd, _, ok := s.pdir(a, dir)
 		if !ok {
@@ -1019,7 +1026,17 @@ func (s *scenario) opRemove(a *action) {
 	dir := s.pickDir(a)
 	name := s.pickName(a, dir)
 	s.touch(a)
-	if s.r.Intn(4) == 0 {
+	s.removeAt(a, dir, name, s.r.Intn(4) == 0, func() (bool, bool) {
+		rd := s.r.Intn(4) > 0
+		rl := s.r.Intn(4) > 0
+		return rd, rl
+	})
+}
+
+// removeAt removes name from dir through the worker-facing API or through
+// VirtualRemove with the flags that `flags` chooses.
+func (s *scenario) removeAt(a *action, dir []string, name string, worker bool, flags func() (removeDirectory, removeLeaf bool)) {
+	if worker {
 		pd, _, ok := s.pdir(a, dir)
 		if !ok {
 			return
@@ -1041,8 +1058,7 @@ func (s *scenario) opRemove(a *action) {
 	if !ok {
 		return
 	}
-	rd := s.r.Intn(4) > 0
-	rl := s.r.Intn(4) > 0
+	rd, rl := flags()
 	var st virtual.Status
 	s.aim(a, dir)
 	faults, panicked := s.guarded(a, "remove", true, func() {
@@ -1155,7 +1171,13 @@ func (s *scenario) opMkdir(a *action) {
 	dir := s.pickDir(a)
 	name := []string{"n1", "n2", "a", "b", "lib"}[s.r.Intn(5)]
 	s.touch(a)
-	if s.r.Intn(3) == 0 {
+	s.mkdirAt(a, dir, name, s.r.Intn(3) == 0)
+}
+
+// mkdirAt creates directory name in dir through the worker-facing or the
+// kernel-facing API.
+func (s *scenario) mkdirAt(a *action, dir []string, name string, worker bool) {
+	if worker {
 		_, wd, ok := s.pdir(a, dir)
 		if !ok {
 			return
